@@ -209,6 +209,11 @@ func runProperty(repo, specs, prop, tier, out string) int {
 	for _, fn := range fns {
 		x := NewExec(p, fn)
 		x.Run()
+		if len(x.Unsupported) == 1 && strings.Contains(x.Unsupported[0], "unknown identifier") {
+			if x2 := tryRebind(p, fn, x, solver, nil, 0); x2 != nil {
+				x = x2
+			}
+		}
 		runs = append(runs, fnRun{x})
 		tag := "contract"
 		if x.FC == nil {
